@@ -1,6 +1,7 @@
 package main
 
 import (
+	"go/constant"
 	"fmt"
 	"go/token"
 	"go/types"
@@ -220,4 +221,69 @@ func (p *Program) globalFor(v *types.Var) *ssa.Global {
 		return g
 	}
 	return nil
+}
+
+// globalRegex: the RegLan term of a package-level variable that is assigned exactly once, in its package
+// initialiser, with regexp.MustCompile(<constant>), and stored to nowhere else in the package.
+func (p *Program) globalRegex(g *ssa.Global) (string, bool) {
+	if g.Pkg == nil {
+		return "", false
+	}
+	var lit string
+	n := 0
+	for _, m := range g.Pkg.Members {
+		fn, ok := m.(*ssa.Function)
+		if !ok {
+			continue
+		}
+		var walk func(f *ssa.Function)
+		walk = func(f *ssa.Function) {
+			for _, b := range f.Blocks {
+				for _, in := range b.Instrs {
+					st, ok := in.(*ssa.Store)
+					if !ok || st.Addr != ssa.Value(g) {
+						continue
+					}
+					n++
+					if f.Name() != "init" || f.Synthetic == "" {
+						n += 100 // assigned outside the synthesized initialiser
+						continue
+					}
+					if call, ok := st.Val.(*ssa.Call); ok {
+						if sc := call.Call.StaticCallee(); sc != nil && fnKey(sc) == "regexp.MustCompile" && len(call.Call.Args) == 1 {
+							if c, ok := call.Call.Args[0].(*ssa.Const); ok && c.Value != nil && c.Value.Kind() == constant.String {
+								lit = constant.StringVal(c.Value)
+								continue
+							}
+						}
+					}
+					n += 100
+				}
+			}
+			for _, a := range f.AnonFuncs {
+				walk(a)
+			}
+		}
+		walk(fn)
+	}
+	// methods of the package's types may also store to the variable
+	for _, fn := range p.fnByKey {
+		if fn.Pkg == g.Pkg && fn.Signature.Recv() != nil {
+			for _, b := range fn.Blocks {
+				for _, in := range b.Instrs {
+					if st, ok := in.(*ssa.Store); ok && st.Addr == ssa.Value(g) {
+						n += 100
+					}
+				}
+			}
+		}
+	}
+	if n != 1 || lit == "" {
+		return "", false
+	}
+	re, err := regexToSMT(lit)
+	if err != nil {
+		return "", false
+	}
+	return re, true
 }
